@@ -12,11 +12,14 @@
 #include "src/secp256k1.c"
 #include "post.h"
 #ifndef VERIF_NATIVE
-static wide modp(wide v) { wide p = P_(); int i; for (i = 0; i < 9; i++) if (v >= p) v -= p; return v; }   /* operands < 10p (magnitude <= 4) */
+static wide modp(wide v) { wide p = P_(); if (v >= 8 * p) v -= 8 * p; if (v >= 4 * p) v -= 4 * p; if (v >= 2 * p) v -= 2 * p; if (v >= p) v -= p; return v; }   /* operands < 16p (magnitude <= 4 is < 10p) */
 /* the three multiplications are identified by their OPERAND VALUES, not by call order; a missing generator scalar and a zero one are the same */
-struct em_call { wide na, ng; wide ax, ay, az; int ainf; secp256k1_gej r; };
-static int em_matches(const struct em_call *c, wide na, wide ng, const secp256k1_ge *pt) {
-    return c->na == na && c->ng == ng && !c->ainf && c->az == 1 && c->ax == modp(fval(&pt->x)) && c->ay == modp(fval(&pt->y));
+struct em_call { wide na, ng; secp256k1_gej a; secp256k1_gej r; };
+struct pt_spec { secp256k1_ge g; wide cx, cy; };   /* a point as handed in, and its canonical coordinates */
+/* the multiplied point is the given one: same limbs, or its canonical (fully normalised) representation; z = 1 */
+static int em_matches(const struct em_call *c, wide na, wide ng, const struct pt_spec *pt) {
+    return c->na == na && c->ng == ng && !c->a.infinity && fval(&c->a.z) == 1 &&
+           ((FE_EQ(c->a.x, pt->g.x) && FE_EQ(c->a.y, pt->g.y)) || (fval(&c->a.x) == pt->cx && fval(&c->a.y) == pt->cy));
 }
 static wide negn(wide v) { return v == 0 ? 0 : N_() - v; }
 static void be_bytes(unsigned char *out, wide v) { int i; for (i = 0; i < 32; i++) out[i] = (unsigned char)(v >> (8 * (31 - i))); }
@@ -36,25 +39,28 @@ void h_dleq_verify(void) {
     {
         wide n = N_(), ev = sval(&e), sv = sval(&s);
         struct em_call c[3]; int i1 = -1, ia = -1, ib = -1, k;
-#define FILL(i) c[i].na = g_em_hna##i ? sval(&g_em_na##i) : 0; c[i].ng = g_em_hng##i ? sval(&g_em_ng##i) : 0; c[i].ax = modp(fval(&g_em_a##i.x)); c[i].ay = modp(fval(&g_em_a##i.y)); \
-                c[i].az = modp(fval(&g_em_a##i.z)); c[i].ainf = g_em_a##i.infinity; c[i].r = g_em_r##i
+#define FILL(i) c[i].na = g_em_hna##i ? sval(&g_em_na##i) : 0; c[i].ng = g_em_hng##i ? sval(&g_em_ng##i) : 0; c[i].a = g_em_a##i; c[i].r = g_em_r##i
+        struct pt_spec sp1, sgen2, sp2;
         FILL(0); FILL(1); FILL(2);
+        sp1.g = p1_0; sp1.cx = modp(fval(&p1_0.x)); sp1.cy = modp(fval(&p1_0.y)); sgen2.g = gen2_0; sgen2.cx = modp(fval(&gen2_0.x)); sgen2.cy = modp(fval(&gen2_0.y));
+        sp2.g = p2_0; sp2.cx = modp(fval(&p2_0.x)); sp2.cy = modp(fval(&p2_0.y));
         __CPROVER_assert(g_em_n == 3 && g_aj_n == 1, "C14 dleq_verify: R1 and the two terms of R2 are three multiplications, R2 one addition");
-        for (k = 0; k < 3; k++) { if (em_matches(&c[k], negn(ev), sv, &p1_0)) i1 = k; }
-        for (k = 0; k < 3; k++) { if (k != i1 && em_matches(&c[k], negn(ev), 0, &p2_0)) ia = k; }
-        for (k = 0; k < 3; k++) { if (k != i1 && k != ia && em_matches(&c[k], sv, 0, &gen2_0)) ib = k; }
-        __CPROVER_assert(i1 >= 0, "C14 dleq_verify: one multiplication computes R1 = s*G + (-e)*P1");
-        __CPROVER_assert(ia >= 0, "C14 dleq_verify: one multiplication computes (-e)*P2 (no generator part)");
-        __CPROVER_assert(ib >= 0, "C14 dleq_verify: one multiplication computes s*gen2 (no generator part)");
-        if (i1 < 0 || ia < 0 || ib < 0) return;
-        __CPROVER_assert((GEJ_EQ(g_aj_a0, c[ib].r) && GEJ_EQ(g_aj_b0, c[ia].r)) || (GEJ_EQ(g_aj_a0, c[ia].r) && GEJ_EQ(g_aj_b0, c[ib].r)), "C14 dleq_verify: R2 is the sum of the two terms");
+        /* find the roles of the three calls: (i1, ia, ib) = (R1, (-e)*P2, s*gen2); the addition's operands single out the two terms of R2 */
+        { static const int perm[6][3] = { {0,1,2}, {0,2,1}, {1,0,2}, {1,2,0}, {2,0,1}, {2,1,0} };
+          for (k = 5; k >= 0; k--) {
+              int a = perm[k][0], b = perm[k][1], d = perm[k][2];
+              if (em_matches(&c[a], negn(ev), sv, &sp1) && em_matches(&c[b], negn(ev), 0, &sp2) && em_matches(&c[d], sv, 0, &sgen2) &&
+                  ((GEJ_EQ(g_aj_a0, c[d].r) && GEJ_EQ(g_aj_b0, c[b].r)) || (GEJ_EQ(g_aj_a0, c[b].r) && GEJ_EQ(g_aj_b0, c[d].r)))) { i1 = a; ia = b; ib = d; }
+          } }
+        __CPROVER_assert(i1 >= 0, "C14 dleq_verify: the three multiplications are R1 = s*G + (-e)*P1, (-e)*P2 and s*gen2 (in any order, no generator part in the last two), and R2 is the sum of the last two");
+        if (i1 < 0) return;
 #define g_R1 (c[i1].r)
         if (g_R1.infinity || g_aj_r0.infinity) { __CPROVER_assert(ret == 0 && g_fin_n == 0 && g_h_fresh == 1, "C14 dleq_verify: R1 or R2 at infinity => 0, nothing hashed"); REACH("dleq_verify commitment at infinity"); }
         else {
             wide xs[5], ys[5]; unsigned char xb[32]; int j;
             __CPROVER_assert(g_sa_n == 1 && GEJ_EQ(g_sa_a0, g_R1) && GEJ_EQ(g_sa_a1, g_aj_r0), "C14 dleq_verify: (R1, R2) converted to affine");
             __CPROVER_assert(g_fin_n == 1 && g_w_started && g_w_b0 == 64 && g_w_s0 == 0x8cc4beacul && g_w_s7 == 0x577fd564ul && g_w_fin && g_w_end == 64 + 165, "C14 dleq_verify: one challenge hash from the DLEQ midstate over 5 compressed points");
-            xs[0] = modp(fval(&p1_0.x)); ys[0] = modp(fval(&p1_0.y)); xs[1] = modp(fval(&gen2_0.x)); ys[1] = modp(fval(&gen2_0.y)); xs[2] = modp(fval(&p2_0.x)); ys[2] = modp(fval(&p2_0.y));
+            xs[0] = sp1.cx; ys[0] = sp1.cy; xs[1] = sgen2.cx; ys[1] = sgen2.cy; xs[2] = sp2.cx; ys[2] = sp2.cy;
             xs[3] = modp(fval(&g_sa_r0.x)); ys[3] = modp(fval(&g_sa_r0.y)); xs[4] = modp(fval(&g_sa_r1.x)); ys[4] = modp(fval(&g_sa_r1.y));
             if (g_wpos >= 64 && g_wpos < 64 + 165) {
                 uint64_t q = g_wpos - 64; j = (int)(q / 33);
